@@ -763,23 +763,31 @@ pub struct RealJob<'a> {
     pub chunk: Chunking,
     pub budget: u64,
     pub via: Via,
+    /// open the root by a path WITH a directory part (`w/root.scss` from the parent of bases[0], as
+    /// `rsass dir/file.scss` does) instead of from inside its directory
+    pub root_with_dir: bool,
 }
 
 pub fn run_job_real(job: &RealJob) -> Outcome {
     use rsass::input::{CargoLoader, FsLoader};
     COMPILED_HERE.store(true, std::sync::atomic::Ordering::Relaxed);
     let st = Rc::new(RefCell::new(LoaderState::new(job.plan.clone(), job.chunk, job.budget)));
-    let backend = Rc::new(SimBackend { fs: job.fs.clone(), cwd: job.bases[0].clone(), st: st.clone() });
+    // the simulated cwd: the root's base directory, or (root_with_dir) the top of the tree
+    let with_dir = job.root_with_dir && !job.bases[0].is_empty();
+    let cwd = if with_dir { String::new() } else { job.bases[0].clone() };
+    let backend = Rc::new(SimBackend { fs: job.fs.clone(), cwd: cwd.clone(), st: st.clone() });
     let old = rsass_verif_fs::install(Some(backend));
     if job.via == Via::Cargo {
         // CargoLoader resolves relative paths against CARGO_MANIFEST_DIR: the simulated cwd
-        std::env::set_var("CARGO_MANIFEST_DIR", format!("{SIMROOT}/{}", job.bases[0]).trim_end_matches('/'));
+        std::env::set_var("CARGO_MANIFEST_DIR", format!("{SIMROOT}/{cwd}").trim_end_matches('/'));
     }
-    let depth = job.bases[0].split('/').filter(|c| !c.is_empty()).count();
+    let depth = cwd.split('/').filter(|c| !c.is_empty()).count();
     let up = "../".repeat(depth);
+    let root_rel_owned = if with_dir { format!("{}/{}", job.bases[0], job.root_rel) } else { job.root_rel.to_string() };
+    let job_root_rel: &str = &root_rel_owned;
     let res = catch_unwind(AssertUnwindSafe(|| {
         let r: Result<Vec<u8>, rsass::Error> = match job.via {
-            Via::Fs | Via::Stub => FsLoader::for_path(std::path::Path::new(job.root_rel)).map_err(rsass::Error::from).and_then(
+            Via::Fs | Via::Stub => FsLoader::for_path(std::path::Path::new(job_root_rel)).map_err(rsass::Error::from).and_then(
                 |(mut loader, file)| {
                     for b in &job.bases[1..] {
                         loader.push_path(format!("{up}{b}").as_ref());
@@ -789,7 +797,7 @@ pub fn run_job_real(job: &RealJob) -> Outcome {
                         .transform(file)
                 },
             ),
-            Via::Cargo => CargoLoader::for_path(std::path::Path::new(job.root_rel)).map_err(rsass::Error::from).and_then(
+            Via::Cargo => CargoLoader::for_path(std::path::Path::new(job_root_rel)).map_err(rsass::Error::from).and_then(
                 |(mut loader, file)| {
                     for b in &job.bases[1..] {
                         loader.push_path(format!("{up}{b}").as_ref()).map_err(rsass::Error::from)?;
